@@ -233,7 +233,7 @@ pub fn consistent_patches(p: &Parse) -> Vec<Dmg> {
         }
         // limb count and max_size raised / lowered together
         if let (Some(sz), Some(ms)) = (dims.last(), fs.iter().find(|f| f.role == Role::MaxSize)) {
-            out.push(region(&[(sz.off, sz.val + 1), (ms.off, ms.val + 1)]));
+            out.push(region(&[(sz.off, sz.val.wrapping_add(1)), (ms.off, ms.val.wrapping_add(1))]));
             if sz.val >= 2 {
                 out.push(region(&[(sz.off, sz.val - 1), (ms.off, ms.val.saturating_sub(1))]));
             }
